@@ -178,11 +178,29 @@ struct HostCounters {
     activity: AtomicU64,
     sends: AtomicU64,
     factory_calls: AtomicU32,
+    /// stream objects (whole or split) and pending connects the host's software holds right now
+    streams: AtomicI64,
+}
+
+/// Lives exactly as long as the stream object (or pending connect) next to it.
+struct Held(Arc<HostCounters>);
+
+impl Held {
+    fn new(c: &Arc<HostCounters>) -> Held {
+        c.streams.fetch_add(1, Ordering::Relaxed);
+        Held(c.clone())
+    }
+}
+
+impl Drop for Held {
+    fn drop(&mut self) {
+        self.0.streams.fetch_sub(1, Ordering::Relaxed);
+    }
 }
 
 impl HostCounters {
     fn new() -> Self {
-        HostCounters { live: Default::default(), activity: AtomicU64::new(0), sends: AtomicU64::new(0), factory_calls: AtomicU32::new(0) }
+        HostCounters { live: Default::default(), activity: AtomicU64::new(0), sends: AtomicU64::new(0), factory_calls: AtomicU32::new(0), streams: AtomicI64::new(0) }
     }
     fn live_total(&self) -> i64 {
         self.live.iter().map(|l| l.load(Ordering::Relaxed)).sum()
@@ -384,10 +402,12 @@ fn err_kind(e: &std::io::Error) -> String {
 type BoxFut = Pin<Box<dyn Future<Output = bool>>>;
 
 /// Interpret `ops`; returns true if a `Return` op was reached.
-fn run_ops(cx: Ctx, ops: Vec<Op>, guard: TaskGuard, stream_in: Option<(TcpStream, usize, u32, bool)>) -> BoxFut {
+fn run_ops(cx: Ctx, ops: Vec<Op>, guard: TaskGuard, stream_in: Option<(TcpStream, usize, u32, bool)>, held_in: Option<Held>) -> BoxFut {
     Box::pin(async move {
         let _guard = guard;
         let mut listener: Option<TcpListener> = None;
+        // (declared before `stream`: dropped after it)
+        let mut held: Option<Held> = held_in;
         let mut stream: Option<(TcpStream, usize, u32, bool)> = stream_in;
         let mut udp: Option<UdpSocket> = None;
         let mut nchild = 0usize;
@@ -416,6 +436,7 @@ fn run_ops(cx: Ctx, ops: Vec<Op>, guard: TaskGuard, stream_in: Option<(TcpStream
                             cx.tag("accept");
                             cx.sh.evs.borrow_mut().push(Ev::Accepted { host: cx.host, inc: cx.inc, peer });
                             stream = Some((s, ph, cx.sh.step.get(), true));
+                            held = Some(Held::new(cx.c()));
                         }
                         Err(e) => {
                             g.finish(Res::Err(err_kind(&e)), None);
@@ -438,7 +459,8 @@ fn run_ops(cx: Ctx, ops: Vec<Op>, guard: TaskGuard, stream_in: Option<(TcpStream
                                 let child = cx.child(nchild);
                                 nchild += 1;
                                 let tg = TaskGuard::new(cx.c(), cx.inc);
-                                tokio::task::spawn_local(run_ops(child, serve.clone(), tg, Some((s, ph, cx.sh.step.get(), true))));
+                                let h = Held::new(cx.c());
+                                tokio::task::spawn_local(run_ops(child, serve.clone(), tg, Some((s, ph, cx.sh.step.get(), true)), Some(h)));
                             }
                             Err(e) => {
                                 g.finish(Res::Err(err_kind(&e)), None);
@@ -452,7 +474,9 @@ fn run_ops(cx: Ctx, ops: Vec<Op>, guard: TaskGuard, stream_in: Option<(TcpStream
                     let ph = *host as usize;
                     let name = cx.sh.names[ph].clone();
                     let g = cx.begin(PK::Connect, ph, 0, false);
-                    cx.log(format!("connect {name}:{port} ..."));
+                    cx.log(format!("connect {name}:{port} ...")); 
+                    drop(stream.take());
+                    held = Some(Held::new(cx.c()));
                     match TcpStream::connect((name.as_str(), *port)).await {
                         Ok(s) => {
                             let la = s.local_addr().ok();
@@ -463,6 +487,7 @@ fn run_ops(cx: Ctx, ops: Vec<Op>, guard: TaskGuard, stream_in: Option<(TcpStream
                         }
                         Err(e) => {
                             g.finish(Res::Err(err_kind(&e)), None);
+                            held = None;
                             cx.log(format!("connect {name}:{port} err {}", err_kind(&e)));
                             cx.tag("connect-err");
                         }
@@ -592,6 +617,7 @@ fn run_ops(cx: Ctx, ops: Vec<Op>, guard: TaskGuard, stream_in: Option<(TcpStream
                 }
                 Op::DropStream => {
                     stream = None;
+                    held = None;
                     cx.log("drop stream");
                 }
                 Op::SplitIdle { mode } => {
@@ -617,7 +643,7 @@ fn run_ops(cx: Ctx, ops: Vec<Op>, guard: TaskGuard, stream_in: Option<(TcpStream
                     loop {
                         tokio::time::sleep(cx.tick() * 3).await;
                         cx.bump();
-                        let _ = &r;
+                        let _ = (&r, &held);
                     }
                 }
                 Op::UdpBind { port } => match UdpSocket::bind(SocketAddr::new(wildcard(cx.sh.v6), *port)).await {
@@ -725,7 +751,7 @@ fn run_ops(cx: Ctx, ops: Vec<Op>, guard: TaskGuard, stream_in: Option<(TcpStream
                     let child = cx.child(nchild);
                     nchild += 1;
                     if *local {
-                        tokio::task::spawn_local(run_ops(child, ops.clone(), tg, None));
+                        tokio::task::spawn_local(run_ops(child, ops.clone(), tg, None, None));
                     } else {
                         tokio::spawn(send_task(cx.c().clone(), cx.inc, cx.sh.tick_us, cx.sh.v6, ops.clone(), tg));
                     }
@@ -853,7 +879,7 @@ fn send_task(c: Arc<HostCounters>, inc: u32, tick_us: u64, v6: bool, ops: Vec<Op
 async fn host_main(sh: Shared, host: usize, inc: u32, ops: Vec<Op>, guard: TaskGuard) -> turmoil::Result {
     let cx = Ctx { sh: sh.clone(), host, inc, task: "m".into() };
     cx.log("start");
-    let returned = run_ops(cx.clone(), ops, guard, None).await;
+    let returned = run_ops(cx.clone(), ops, guard, None, None).await;
     if returned {
         sh.evs.borrow_mut().push(Ev::MainReturned { host });
         return Ok(());
@@ -1026,8 +1052,10 @@ fn gen_scenario(rng: &mut Rng) -> Scenario {
                 // the victim itself opens a connection: accepted / left in the peer's backlog / refused
                 // (a pending or refused connect used to keep its stream-table entry: former C04-K3, repaired).
                 // A listener that never accepts keeps one request per incarnation of the victim in its backlog.
-                let mode = match rng.below(3) {
-                    1 if cap < 5 => 0,
+                // (mode 3: a listener that starts accepting late - requests of incarnations that are gone by then
+                // are still queued, the live one behind them must be served)
+                let mode = match rng.below(4) {
+                    1 | 3 if cap < 5 => 0,
                     m => m,
                 };
                 let port = 7300 + mode as u16;
@@ -1049,6 +1077,7 @@ fn gen_scenario(rng: &mut Rng) -> Scenario {
                 match mode {
                     0 => peer_tasks.push(vec![Op::Listen { port }, Op::AcceptLoop { serve }]),
                     1 => peer_tasks.push(vec![Op::Listen { port }, Op::Forever { gap: 1 }]),
+                    3 => peer_tasks.push(vec![Op::Listen { port }, Op::Sleep { ticks: rng.range(w as u64 / 2, w as u64 + 8) as u8 }, Op::AcceptLoop { serve }]),
                     _ => {}
                 }
             }
@@ -1191,8 +1220,15 @@ fn execute(sc: &Scenario, keep: bool) -> RunOut {
             let shc = sh.clone();
             let ops = spec.ops.clone();
             let c = sh.counters[h].clone();
+            // the software is the factory as well as the future it returns: in a third of the hosts the factory itself
+            // touches the runtime it is started on (spawns a short helper task, creates a timer)
+            let eager = (sc.cfg.rng_seed as usize + h) % 3 == 0;
             sim.host(spec.name.clone(), move || {
                 let inc = c.factory_calls.fetch_add(1, Ordering::Relaxed) + 1;
+                if eager {
+                    drop(tokio::task::spawn_local(async { tokio::task::yield_now().await }));
+                    drop(tokio::time::sleep(Duration::from_millis(1)));
+                }
                 let guard = TaskGuard::new(&c, inc);
                 host_main(shc.clone(), h, inc, ops.clone(), guard)
             });
@@ -1393,6 +1429,19 @@ fn execute(sc: &Scenario, keep: bool) -> RunOut {
                 return Ok(Some(Violation::new("StepError", format!("Sim::step returned an error at step {s}: {e}"))));
             }
             steps_done = s as u64;
+            // no host's stream table holds more entries than its software holds stream objects and pending connects
+            // (an entry nobody owns is a leftover of somebody else's crash or of a request that was given up)
+            for (h, spec) in sc.hosts.iter().enumerate() {
+                let registered = late_host.map(|(lh, k)| lh != h || s >= k).unwrap_or(true);
+                if !registered || spec.ops.is_empty() || finished[h] || !sim.is_host_running(spec.name.as_str()) {
+                    continue;
+                }
+                let t = sim.verif_host_table_counts(spec.name.as_str());
+                let owned = sh.counters[h].streams.load(Ordering::Relaxed);
+                if t.tcp_streams as i64 > owned {
+                    return Ok(Some(Violation::new("PhantomStream", format!("after step {s}: the stream table of {} holds {} entries, its software holds {owned} stream object(s) / pending connect(s)", spec.name, t.tcp_streams))));
+                }
+            }
             // (b) nothing of a crashed host runs
             for &v in &victims {
                 if let Some((since, act, snd)) = down[v] {
